@@ -246,3 +246,29 @@ Example C07_mpp_example :
   claiming c (run c [] ([OpBlock true []] ++ learn c 7)) = [0%nat; 2%nat; 3%nat] /\
   claiming c (run c [] ([OpBlock true []] ++ learn c 7 ++ [OpBlock true [mkSpend 2 true true]] ++ repeat (OpBlock true []) 60)) = [0%nat; 1%nat; 3%nat].
 Proof. vm_compute. repeat split. Qed.
+
+(** Funding scopes: with a splice negotiated, confirmed, but not locked, the monitor holds several
+    scopes whose commitments pay this node different amounts. The balance it reports for its own output
+    of the confirmed commitment is the value of that output in the commitment of the scope the
+    confirmed commitment spends: the current scope when no alternative funding is recorded, the
+    recorded pending scope otherwise -- for every side and every list of pending scopes. *)
+Theorem C07_balance_is_output_of_spent_scope : forall sd h csv hs current pending st,
+  (forall b, In b (main_balance (closure_in sd h csv hs current pending None) st) -> b = BalAwaiting (scope_main sd current)) /\
+  (forall s, In s pending -> NoDup (map s_funding pending) ->
+     forall b, In b (main_balance (closure_in sd h csv hs current pending (Some (s_funding s))) st) ->
+               b = BalAwaiting (scope_main sd s)).
+Proof. exact main_balance_of_spent_scope. Qed.
+
+Theorem C07_confirmed_scope_is_recorded_one : forall current pending s,
+  In s pending -> NoDup (map s_funding pending) ->
+  confirmed_scope current pending (Some (s_funding s)) = s.
+Proof. exact confirmed_scope_pending. Qed.
+
+(** a splice-in of 50 000 sat by this node, confirmed and not locked: its holder commitment on the new
+    funding pays it 149 058, the one on the original funding 99 056 *)
+Example C07_scope_example :
+  let cur := mkScope 1 99056 0 in
+  let spl := mkScope 2 149058 0 in
+  c_main (closure_in HolderTx 100 144 [] cur [spl] (Some 2)) = 149058 /\
+  c_main (closure_in HolderTx 100 144 [] cur [spl] None) = 99056.
+Proof. vm_compute. split; reflexivity. Qed.
